@@ -420,15 +420,15 @@ prop('C30',
      builds=[dict(crate='vm', filters=['c30_', 'c27_tr_internal'])],
      overrides=[(r'c27_tr_internal_self$', dict(skip=True))],
      default=dict(mem=8, timeout={'quick': 900, 'thorough': 2400}, cbmc_extra=FS, unwindset=['memcmp.0:70']),
-     min_harnesses={'quick': 8, 'thorough': 8},
-     functions_encoded=['<Normal as Verifier>::check_contract_in_inputs', '<op::BAL as Execute>::execute, ContractBalanceCtx::contract_balance', '<op::TR as Execute>::execute (input check before any balance access, contract and script context)',
+     min_harnesses={'quick': 10, 'thorough': 10},
+     functions_encoded=['<Normal as Verifier>::check_contract_in_inputs', '<op::BAL as Execute>::execute, ContractBalanceCtx::contract_balance', '<op::CSIZ as Execute>::execute, Interpreter::code_size, CodeSizeCtx::code_size, contract::contract_size', '<op::TR as Execute>::execute (input check before any balance access, contract and script context)',
                         'PredicateStorage<D>: every StorageInspect/Mutate/Size/Read/Write method of ContractsAssets, ContractsRawCode, ContractsState and contract_state_remove_range'],
-     bounds=['input set with 0..3 concrete contract ids, queried id symbolic among listed / unlisted ones', 'BAL / TR steps as in C27 with symbolic membership of the target in the input set',
+     bounds=['input set {two concrete ids} / empty, queried id symbolic among two listed and two unlisted ones', 'BAL / TR / CSIZ steps with the target listed or unlisted (harness constant), balances / code presence / amounts / gas schedule symbolic',
              'PredicateStorage: symbolic keys, offsets and values'],
      assumptions=[VM_STUBS_NOTE, 'register part of VMINV'],
-     out_of_claim=['CALL, CCP, CROO, CSIZ, LDC, storage instructions, MINT/BURN (not built)', 'the rebuild of the input set at initialisation and the active-contract invariant over whole runs (argument)'],
-     level_text='Bounded model checking of the input-membership check and of two instructions using it: an unlisted contract is refused with ContractNotInInputs before any balance is read or written (storage compared before/after), listed ones are served; the predicate storage refuses every contract-table operation.',
-     level_note='Trusted: Kani/CBMC/cadical, split_registers model. Partial claim (BAL, TR, verifier, predicate storage).')
+     out_of_claim=['CALL, CCP, CROO, LDC and the storage instructions (not built)', 'the rebuild of the input set at initialisation and the active-contract invariant over whole runs (argument)'],
+     level_text='Bounded model checking of the input-membership check and of three instructions using it (BAL, TR, CSIZ): an unlisted contract is refused with ContractNotInInputs before any balance is read or written (storage compared before/after), listed ones are served; the predicate storage refuses every contract-table operation.',
+     level_note='Trusted: Kani/CBMC/cadical, split_registers model. Partial claim (BAL, TR, CSIZ, verifier, predicate storage).')
 
 prop('C32',
      builds=[dict(crate='vm', filters=['c32_']), dict(crate='vm', filters=['c32x_'], tier='thorough')],
